@@ -9,7 +9,7 @@
 Everything is written to seeded/<id>/meta.json next to patch.diff and the demonstration."""
 import json, os, re, shutil, subprocess, sys, time
 V = os.path.dirname(os.path.dirname(os.path.abspath(__file__)))
-WT, BD = "/tmp/seedwt", "/tmp/seedbuild"
+WT, BD = os.environ.get("SEED_WT", "/tmp/seedwt"), os.environ.get("SEED_BD", "/tmp/seedbuild")
 prop, src, sid = sys.argv[1:4]
 dst = os.path.join(V, "seeded", sid)
 os.makedirs(dst, exist_ok=True)
